@@ -226,3 +226,21 @@ Record id_case := mkIdCase { id_total : Z; id_distinct : Z; id_wellformed : Z }.
 (* result vector: [diff (none: there is nothing to predict); mon_c16_unique; nt] *)
 Definition eval_id_case (k : id_case) : list Z :=
   [ -1; b2z (Z.eqb (id_total k) (id_distinct k) && Z.eqb (id_wellformed k) (id_total k)); b2z (1000 <=? id_total k) ].
+
+(* ---- tunnel suite (C20, tunnelling half): an Upgrade session through the real binary with a plugin chain ---- *)
+Record tu_case := mkTuCase {
+  tu_chain : list wplug; tu_msgs : list (Z * Z) (* direction, bytes *); tu_closer : Z; tu_idle : Z;
+  tu_upgraded : bool;          (* the client got 101 Switching Protocols *)
+  tu_delivered : bool;         (* every message arrived at the other side, byte for byte, in order *)
+  tu_close_seen : bool         (* after one side closed, the other side saw the end of the stream *)
+}.
+(* a blank custom-auth key can never be presented by a client (HTTP strips the value): such a chain refuses the handshake *)
+Definition tu_refused (k : tu_case) : bool :=
+  existsb (fun p => match p with WAuth key => bytes_eqb (trim_ows key) [] && negb (bytes_eqb key []) | _ => false end) (tu_chain k).
+(* result vector: [diff; mon_tunnel_relay; mon_tunnel_close; nt_c20] *)
+Definition eval_tu_case (k : tu_case) : list Z :=
+  let expect := negb (tu_refused k) in
+  [ (if Bool.eqb (tu_upgraded k) expect then -1 else 0);
+    b2z (if expect then tu_upgraded k && tu_delivered k else true);
+    b2z (if expect then tu_close_seen k else true);
+    b2z (2 <=? zlen (tu_msgs k)) ].
